@@ -4,11 +4,11 @@ sys.path.insert(0, os.path.dirname(os.path.abspath(__file__)))
 import dfs_common as D
 
 def jobs(tier):
-    return D.extract_jobs(Job) + (D.c12_extra(Job, tier) if hasattr(D, "c12_extra") else [])
+    return D.extract_jobs(Job) + (D.c12_extra(Job, tier) if hasattr(D, "c12_extra") else []) + D.openmode_jobs(Job)
 
 META = {
     "trusted_base": D.DFS_TRUSTED + ["std::string operations of the name construction are modelled on strings of at most 15 characters (models/dfs_model.h cstr_*)"],
     "assumptions": [],
-    "outside": ["\"image byte-identical afterwards\" and \"other commands create no files\" are facts about which library calls exist (ifstream, fopen \"rb\"), not pre/post-conditions of any function"],
+    "outside": ["\"image byte-identical afterwards\" / \"other commands create no files\": decided only as far as (a) the two places an image file is opened use read-only modes (under contract) and (b) the list of places where dfs opens or creates any file is the expected one (a mechanical inventory of dfs/*.cc, *.h made on every run: a different list makes the check undecided, exit 2); what the C++ library does with those modes is assumed"],
     "explanation": "for all 8+8 catalogue name bytes and any current directory: the host file created by extract-files is dest_dir + base with base non-empty, without '/', not '.' or '..'; otherwise the entry is refused with a diagnostic",
 }
